@@ -200,6 +200,10 @@ def pytest_configure(config):
 
 
 def is_xfail(request):
+    # --runxfail: pytest runs the tests as if they were not marked
+    if request.config.getoption("runxfail", False):
+        return False
+
     # request.keywords contains also the names of the parent nodes (a directory
     # with the name xfail), iter_markers() returns only the markers
     for mark in request.node.iter_markers(name="xfail"):
@@ -208,13 +212,23 @@ def is_xfail(request):
         else:
             conditions = mark.args
 
-        # like pytest: no condition means always, string conditions are
-        # evaluated by pytest and are handled like a true condition here
-        if not conditions or any(
-            True if isinstance(condition, str) else bool(condition)
-            for condition in conditions
-        ):
+        # like pytest: no condition means always
+        if not conditions:
             return True
+
+        for condition in conditions:
+            if isinstance(condition, str):
+                # string conditions are evaluated like pytest does it
+                try:
+                    from _pytest.skipping import evaluate_condition
+
+                    result, _ = evaluate_condition(request.node, mark, condition)
+                except ImportError:  # pragma: no cover
+                    result = True
+            else:
+                result = bool(condition)
+            if result:
+                return True
     return False
 
 
